@@ -123,7 +123,15 @@ def run_case(sh, s, d, case):
             return False
         if got != exp:
             later = [i for i, (t, sn) in enumerate(snaps) if sn == got]
-            sh.violation('c15:%s:historical-connection-reads-another-state' % kind,
+            feat = ''
+            if packed_T is not None and exp is not None:
+                # consequence of the pack-GC family recorded under C07: the differing objects were unreachable at the
+                # pack time and became reachable again later (through undo)
+                atT = expected(p64(u64(packed_T) + 1)) or {}
+                dif = [o for o in set(got) | set(exp) if got.get(o) != exp.get(o)]
+                if dif and all(o not in atT for o in dif):
+                    feat = ':object-unreachable-at-pack-time-relinked-later'
+            sh.violation('c15:%s:historical-connection-reads-another-state%s' % (kind, feat),
                          {'label': h['label'], 'bound': h['bound'], 'trace': trace, 'matches_snapshot_index': later,
                           'expected_index': max([i for i, (t, sn) in enumerate(snaps) if t < h['bound']] or [-1]), 'reread': again}, case)
             return False
